@@ -127,6 +127,19 @@ var props = []*prop{
 		Thorough:    budget{Shards: 14, Checks: 700, TimeoutS: 5000, ShrinkS: 60},
 	},
 	{
+		ID: "C04", Pkg: "c04", Level: "exploration",
+		Technique:   "stateful property-based testing (rapid) with fault-amplifying instrumentation: every object handed back to a pool is scribbled at that instant (verif hook); differential against the same calls with recycling off from reset pools; the repository's validatedebug pools detect double redeem",
+		LevelText:   "Generated histories mixing AgainstSchema, one-shot recycling schema/parameter/header validators and validate.Spec, with early-exit inputs; each step's outcome must equal the outcome of the same call computed beforehand with recycling off (public option and pools in swallow mode); returned errors are re-read at the end; half of the shards use the validatedebug pools. Scribbling (two polarities) turns any use-after-redeem or forgotten field into a deterministic outcome difference.",
+		LevelNote:   "Trusted: the 3-line redeem hook in each Redeem* function (tag verif), internal/scribble (writes only the redeemed object's own fields), the soundness argument of DESIGN.md 2.2 (a redeemed object may not be read; constructors assign every field).",
+		Assumptions: trusted,
+		Builds: []buildVariant{
+			{Name: "plain", Tags: []string{"verif"}, ShardShare: 0.5},
+			{Name: "debug", Tags: []string{"verif", "validatedebug"}, ShardShare: 0.5},
+		},
+		Quick:    budget{Shards: 14, Checks: 250, TimeoutS: 600},
+		Thorough: budget{Shards: 14, Checks: 5000, TimeoutS: 5000},
+	},
+	{
 		ID: "C06", Pkg: "c06", Level: "exploration",
 		Technique:   "property-based robustness testing (rapid; native coverage-guided go fuzzing of the same property in the thorough tier) with a no-panic / non-nil-result oracle and an allow-list of exactly the documented panic",
 		LevelText:   "Degenerate-friendly schema grammar x derived, random and extreme instances x json.Number x every option subset x three registries x both entry points; each call must return normally with a non-nil result; the only panic accepted is the documented 'Invalid schema provided' one and only when an unresolvable $ref was planted. Exploration (plus coverage-guided fuzzing in thorough) suits an all-inputs crash-freedom claim.",
@@ -209,6 +222,26 @@ var props = []*prop{
 		Builds:      plain,
 		Quick:       budget{Shards: 14, Checks: 5000, TimeoutS: 400},
 		Thorough:    budget{Shards: 14, Checks: 120000, TimeoutS: 3000},
+	},
+	{
+		ID: "C18", Pkg: "c18", Level: "exploration",
+		Technique:   "property-based testing (rapid) against an independent 'applicable schemas / defaults' model that yields the set of acceptable post-states",
+		LevelText:   "Schemas and valid instances are built together (defaults at depth, under allOf/anyOf/oneOf, items, patternProperties, additionalProperties, $ref); after Validate + post.ApplyDefaults the data must equal one of the post-states the model accepts (one per consistent choice of anyOf alternative): present members untouched, every absent member with an applicable default filled with one of them, nothing else added.",
+		LevelNote:   "Trusted: internal/postmodel (library-free), internal/refmodel for validity; alternatives on which model and library disagree are excluded (C01's business). The open $ref-default finding is replicated exactly.",
+		Assumptions: trusted,
+		Builds:      plain,
+		Quick:       budget{Shards: 14, Checks: 3000, TimeoutS: 400},
+		Thorough:    budget{Shards: 14, Checks: 80000, TimeoutS: 3000},
+	},
+	{
+		ID: "C19", Pkg: "c19", Level: "exploration",
+		Technique:   "property-based testing (rapid) against an independent 'described-by' model that yields the set of acceptable pruned states, plus the metamorphic idempotence check",
+		LevelText:   "Valid instances with described and undescribed members at every depth; after Validate + post.Prune a member remains exactly when an applicable schema describes it (acceptable states enumerated over anyOf choices), survivors are unchanged up to recursive pruning, and without anyOf/oneOf a second validate+prune removes nothing.",
+		LevelNote:   "Trusted: internal/postmodel, internal/refmodel; reading: additionalProperties true/absent permits but does not describe, a schema-valued one describes every member.",
+		Assumptions: trusted,
+		Builds:      plain,
+		Quick:       budget{Shards: 14, Checks: 3000, TimeoutS: 400},
+		Thorough:    budget{Shards: 14, Checks: 80000, TimeoutS: 3000},
 	},
 	{
 		ID: "C20", Pkg: "c20", Level: "exploration",
